@@ -47,5 +47,8 @@ where
 {
     let mut writer = File::create(dst).map(Writer::new)?;
     writer.write_index(index)?;
+    // Dropping the BGZF writer would write the last block and the EOF marker but discard any
+    // error.
+    writer.into_inner().finish()?;
     Ok(())
 }
